@@ -113,3 +113,26 @@ def match_finding(prop, cls, trig):
         if cls in pat.get("classes", []) and trig is not None and trig == pat.get("trigger"):
             return f["id"]
     return None
+
+
+def continuation_differs(e, cfg, a, b, batches):
+    """Feed the same batches to objects a and b, compute() after every update; first difference."""
+    for k, bt in enumerate(batches):
+        e.update(a, cfg, bt)
+        e.update(b, cfg, bt)
+        ra = safe(lambda: e.out_val(a.compute()))
+        rb = safe(lambda: e.out_val(b.compute()))
+        if isinstance(ra, T) and isinstance(rb, T) and ra.tag == rb.tag == "err":
+            continue
+        d = close(ra, rb, e.tol)
+        if d:
+            return {"at_update": k + 1, "first": repr(ra), "second": repr(rb), "why": d}
+    return None
+
+
+def prefix_and_cont(ctx, e, cfg):
+    N = e.window(cfg)
+    npre = ctx.rng.choice([0, 1, 2, N - 1 if N > 1 else 1, N, N + 1, 2 * N + 1, 3 * N])
+    ncont = ctx.rng.choice([1, N, N + 1, 2 * N + 2])
+    g = lambda: e.gen_batch(ctx.rng, cfg, ctx.rng.choice([1, 1, 2, 3]))
+    return [g() for _ in range(npre)], [g() for _ in range(ncont)]
